@@ -521,6 +521,8 @@ macro_rules! curve_impl {
                     for _ in 0..num_doubles {
                         res.double();
                     }
+                    #[cfg(pairing_plus_verif)]
+                    ::verif_pippenger::window(bit_sequence_index, num_doubles);
                     let mut max_bucket = 0;
                     let word_index = bit_sequence_index >> 6; // divide bit_sequence_index by 64 to find word_index
                     let bit_index = bit_sequence_index & 63; // mod bit_sequence_index by 64 to find bit_index
@@ -532,6 +534,8 @@ macro_rules! curve_impl {
                             for i in 0..num_components {
                                 let bucket_index: usize =
                                     (scalars[i][word_index] & smaller_mask) as usize;
+                                #[cfg(pairing_plus_verif)]
+                                ::verif_pippenger::digit(bucket_index);
                                 if bucket_index > 0 {
                                     buckets[bucket_index].add_assign_mixed(&points[i]);
                                     if bucket_index > max_bucket {
@@ -553,6 +557,8 @@ macro_rules! curve_impl {
                                 bucket_index |= ((scalars[i][prev_word_index] >> low_order_shift)
                                     & low_order_mask)
                                     as usize;
+                                #[cfg(pairing_plus_verif)]
+                                ::verif_pippenger::digit(bucket_index);
                                 if bucket_index > 0 {
                                     buckets[bucket_index].add_assign_mixed(&points[i]);
                                     if bucket_index > max_bucket {
@@ -567,6 +573,8 @@ macro_rules! curve_impl {
                             let bucket_index: usize =
                                 ((scalars[i][word_index] >> shift) & mask) as usize;
                             assert!(bit_sequence_index != 255 || scalars[i][3] >> 63 == 0);
+                            #[cfg(pairing_plus_verif)]
+                            ::verif_pippenger::digit(bucket_index);
                             if bucket_index > 0 {
                                 buckets[bucket_index].add_assign_mixed(&points[i]);
                                 if bucket_index > max_bucket {
@@ -575,6 +583,8 @@ macro_rules! curve_impl {
                             }
                         }
                     }
+                    #[cfg(pairing_plus_verif)]
+                    ::verif_pippenger::max_bucket(max_bucket);
                     res.add_assign(&buckets[max_bucket]);
                     for i in (1..max_bucket).rev() {
                         let temp = buckets[i + 1]; // TODO: this is necessary only to please the borrow checker
